@@ -7893,6 +7893,9 @@ jdf_generate_code_iterate_successors_or_predecessors(const jdf_t *jdf,
 
             if( NULL != dl->local_defs ) {
                 jdf_expr_t *ld;
+                /* The local definitions of a dependency are scoped to that dependency:
+                 * another dependency of the same flow may reuse their names. */
+                string_arena_add_string(sa_coutput, "  {\n");
                 for(ld = jdf_expr_lv_first(dl->local_defs); ld != NULL; ld = jdf_expr_lv_next(dl->local_defs, ld)) {
                     assert(NULL != ld->alias);
                     assert(-1 != ld->ldef_index);
@@ -8027,6 +8030,9 @@ jdf_generate_code_iterate_successors_or_predecessors(const jdf_t *jdf,
             while(nb_open_ldef > 0) {
                 string_arena_add_string(sa_coutput, "%s  }\n", indent(nb_open_ldef));
                 nb_open_ldef--;
+            }
+            if( NULL != dl->local_defs ) {
+                string_arena_add_string(sa_coutput, "  }\n");
             }
         }
 
